@@ -138,11 +138,10 @@ theorem mem_isect2 (h : IsLinear cmp) (l2 : List α) (h1 : α) (t1 : List α)
     have := h.eq_imp _ _ hc
     subst this
     cases t1 with
-    | nil => simp
+    | nil => simp; grind
     | cons a t =>
       simp only [List.mem_cons]
       rw [ih (strict_cons.1 s1).2 (strict_cons.1 s2).2]
-      simp only [List.mem_cons]
       grind
   | case4 h2 t2 h1 t1 hc ih =>
     have hc' := (h.gt_iff _ _).1 hc
@@ -194,41 +193,41 @@ theorem mem_diffAux (h : IsLinear cmp) (flip : Bool) (l : List α) (e : α) (t :
     have := ih (strict_cons.1 st).2 sl
     simp only [List.mem_cons, this, if_true, Bool.false_eq_true, if_false] at n ⊢
     grind
-  | case3 h2 t2 h1 t1 hc ih =>
+  | case3 h2 t2 h1 hc =>
+    have := h.eq_imp _ _ hc
+    simp [this]
+  | case4 h2 t2 h1 hc a t ih =>
     have := h.eq_imp _ _ hc
     subst this
     have n1 := ((strict_cons.1 st).1).ne h.toIsPreorder
-    cases t1 with
-    | nil => simp
-    | cons a t =>
-      have := ih (strict_cons.1 sl).2 (strict_cons.1 st).2
-      simp only [List.mem_cons, Bool.false_eq_true, if_false] at n1 this ⊢
-      rw [this]
-      grind
-  | case4 h2 t2 h1 t1 hc ih =>
+    have := ih (strict_cons.1 sl).2 (strict_cons.1 st).2
+    simp only [List.mem_cons, Bool.false_eq_true, if_false] at n1 this ⊢
+    rw [this]
+    grind
+  | case5 h2 t2 h1 t1 hc ih =>
     have hc' := (h.gt_iff _ _).1 hc
     have n := (LB.cons h.toIsPreorder hc' st).ne h.toIsPreorder
     have := ih (strict_cons.1 sl).2 st
     simp only [List.mem_cons, this, Bool.false_eq_true, if_false] at n ⊢
     grind
-  | case5 h2 t2 => simp
-  | case6 h1 t1 h2 t2 hc ih =>
+  | case6 h2 t2 => simp
+  | case7 h1 t1 h2 t2 hc ih =>
     have n := (LB.cons h.toIsPreorder hc st).ne h.toIsPreorder
     have := ih (strict_cons.1 sl).2 st
     simp only [List.mem_cons, this, if_true] at n ⊢
     grind
-  | case7 h1 t1 h2 t2 hc ih =>
+  | case8 h1 h2 t2 hc =>
+    have := h.eq_imp _ _ hc
+    simp [this]
+  | case9 h1 h2 t2 hc a t ih =>
     have := h.eq_imp _ _ hc
     subst this
     have n1 := ((strict_cons.1 sl).1).ne h.toIsPreorder
-    cases t1 with
-    | nil => simp
-    | cons a t =>
-      have := ih (strict_cons.1 st).2 (strict_cons.1 sl).2
-      simp only [List.mem_cons, Bool.false_eq_true, if_false, if_true] at n1 this ⊢
-      rw [this]
-      grind
-  | case8 h1 t1 h2 t2 hc ih =>
+    have := ih (strict_cons.1 st).2 (strict_cons.1 sl).2
+    simp only [List.mem_cons, Bool.false_eq_true, if_false, if_true] at n1 this ⊢
+    rw [this]
+    grind
+  | case10 h1 t1 h2 t2 hc ih =>
     have hc' := (h.gt_iff _ _).1 hc
     have n := (LB.cons h.toIsPreorder hc' sl).ne h.toIsPreorder
     have := ih (strict_cons.1 st).2 sl
@@ -246,23 +245,19 @@ theorem diffAux_strict (h : IsLinear cmp) (flip : Bool) (l : List α) (e : α) (
     intro z hz
     rw [mem_diffAux h _ _ _ _ st'.2 sl] at hz
     exact st'.1 z hz.1
-  | case3 h2 t2 h1 t1 hc ih =>
-    cases t1 with
-    | nil => exact List.Pairwise.nil
-    | cons a t => exact ih (strict_cons.1 sl).2 (strict_cons.1 st).2
-  | case4 h2 t2 h1 t1 hc ih => exact ih (strict_cons.1 sl).2 st
-  | case5 h2 t2 => exact List.Pairwise.nil
-  | case6 h1 t1 h2 t2 hc ih =>
+  | case3 h2 t2 h1 hc => exact List.Pairwise.nil
+  | case4 h2 t2 h1 hc a t ih => exact ih (strict_cons.1 sl).2 (strict_cons.1 st).2
+  | case5 h2 t2 h1 t1 hc ih => exact ih (strict_cons.1 sl).2 st
+  | case6 h2 t2 => exact List.Pairwise.nil
+  | case7 h1 t1 h2 t2 hc ih =>
     have sl' := strict_cons.1 sl
     refine strict_cons.2 ⟨?_, ih sl'.2 st⟩
     intro z hz
     rw [mem_diffAux h _ _ _ _ sl'.2 st] at hz
     exact sl'.1 z hz.1
-  | case7 h1 t1 h2 t2 hc ih =>
-    cases t1 with
-    | nil => exact List.Pairwise.nil
-    | cons a t => exact ih (strict_cons.1 st).2 (strict_cons.1 sl).2
-  | case8 h1 t1 h2 t2 hc ih => exact ih (strict_cons.1 st).2 sl
+  | case8 h1 h2 t2 hc => exact List.Pairwise.nil
+  | case9 h1 h2 t2 hc a t ih => exact ih (strict_cons.1 st).2 (strict_cons.1 sl).2
+  | case10 h1 t1 h2 t2 hc ih => exact ih (strict_cons.1 st).2 sl
 
 theorem mem_ordSubtract (h : IsLinear cmp) (a b : List α) (sa : StrictSorted cmp a)
     (sb : StrictSorted cmp b) (x : α) : x ∈ ordSubtract cmp a b ↔ x ∈ a ∧ x ∉ b := by
@@ -288,19 +283,21 @@ theorem mem_symdiffAux (h : IsLinear cmp) (l2 : List α) (h1 : α) (t1 : List α
     have := ih s2 (strict_cons.1 s1).2
     simp only [List.mem_cons, this] at n ⊢
     grind
-  | case3 h2 t2 h1 t1 hc ih =>
+  | case3 h2 t2 h1 hc =>
+    have := h.eq_imp _ _ hc
+    subst this
+    have n2 := ((strict_cons.1 s2).1).ne h.toIsPreorder
+    simp; grind
+  | case4 h2 t2 h1 hc a t ih =>
     have := h.eq_imp _ _ hc
     subst this
     have n1 := ((strict_cons.1 s1).1).ne h.toIsPreorder
     have n2 := ((strict_cons.1 s2).1).ne h.toIsPreorder
-    cases t1 with
-    | nil => simp; grind
-    | cons a t =>
-      have := ih (strict_cons.1 s1).2 (strict_cons.1 s2).2
-      simp only [List.mem_cons] at n1 n2 this ⊢
-      rw [this]
-      grind
-  | case4 h2 t2 h1 t1 hc ih =>
+    have := ih (strict_cons.1 s1).2 (strict_cons.1 s2).2
+    simp only [List.mem_cons] at n1 n2 this ⊢
+    rw [this]
+    grind
+  | case5 h2 t2 h1 t1 hc ih =>
     have hc' := (h.gt_iff _ _).1 hc
     have n := (LB.cons h.toIsPreorder hc' s1).ne h.toIsPreorder
     have := ih s1 (strict_cons.1 s2).2
@@ -320,11 +317,9 @@ theorem symdiffAux_strict (h : IsLinear cmp) (l2 : List α) (h1 : α) (t1 : List
     rcases hz with ⟨hz, _⟩ | ⟨_, hz⟩
     · exact LB.cons h.toIsPreorder hc s2 z hz
     · exact s1'.1 z hz
-  | case3 h2 t2 h1 t1 hc ih =>
-    cases t1 with
-    | nil => exact (strict_cons.1 s2).2
-    | cons a t => exact ih (strict_cons.1 s1).2 (strict_cons.1 s2).2
-  | case4 h2 t2 h1 t1 hc ih =>
+  | case3 h2 t2 h1 hc => exact (strict_cons.1 s2).2
+  | case4 h2 t2 h1 hc a t ih => exact ih (strict_cons.1 s1).2 (strict_cons.1 s2).2
+  | case5 h2 t2 h1 t1 hc ih =>
     have hc' := (h.gt_iff _ _).1 hc
     have s2' := strict_cons.1 s2
     refine strict_cons.2 ⟨?_, ih s1 s2'.2⟩
@@ -443,16 +438,16 @@ theorem ordMemberchk_iff (h : IsLinear cmp) (item : α) (s : List α) (ss : Stri
   fun_induction ordMemberchk cmp item s with
   | case1 x1 x2 x3 x4 xs hc ih =>
     have key := mem_iff_of_gt_last h [x1, x2, x3] xs ss hc
-    have sxs : StrictSorted cmp xs := by
-      have := List.pairwise_append.1 (l₁ := [x1, x2, x3, x4]) (l₂ := xs) ss
-      exact this.2.1
-    rw [ih sxs]; exact key.symm
+    have sxs : StrictSorted cmp xs :=
+      (strict_cons.1 (strict_cons.1 (strict_cons.1 (strict_cons.1 ss).2).2).2).2
+    exact (ih sxs).trans key.symm
   | case2 x1 x2 x3 x4 xs hc hc2 =>
     have s1 := strict_cons.1 ss
     have s2 := strict_cons.1 s1.2
     have s3 := strict_cons.1 s2.2
     have n4 := ltn x4 xs hc s3.2
     have key := mem_iff_of_gt_last h [x1] (x3 :: x4 :: xs) ss hc2
+    simp only [List.cons_append, List.nil_append] at key
     rw [eqi, key]
     simp only [List.mem_cons] at n4 ⊢
     grind
@@ -467,7 +462,7 @@ theorem ordMemberchk_iff (h : IsLinear cmp) (item : α) (s : List α) (ss : Stri
     have := h.eq_imp _ _ hc; simp [this]
   | case6 x1 x2 x3 hc ih =>
     have key := mem_iff_of_gt_last h [x1] [x3] ss hc
-    rw [ih (List.pairwise_singleton _ _)]; exact key.symm
+    exact (ih (List.pairwise_singleton _ _)).trans key.symm
   | case7 x1 x2 x3 hc =>
     have n2 := ltn x2 _ hc (strict_cons.1 ss).2
     rw [eqi]
